@@ -912,7 +912,7 @@ class ExprMixin:
                 self.may_raise(exc_cls, n, op, wire)
         else:
             self.pending_raises = pend
-        self.event('comprehension', node, kind=kind, elem=ev, sources=srcs, filtered=filtered)
+        self.event('comprehension', node, ckind=kind, elem=ev, sources=srcs, filtered=filtered)
         if kind == 'dict':
             d = DictV(open_=True, desc='dictcomp')
             d.comp = (ev, srcs, filtered)
